@@ -91,6 +91,8 @@ def install(eng):
     @reg('forall')
     def _forall(eng, st, args, kw, node):
         lo, hi, body = args
+        if is_conc_int(simp(lo)) and is_conc_int(simp(hi)) and simp(hi) <= simp(lo):
+            return one(st, True)       # empty range: vacuously true (the body is not evaluated on a concretely empty sequence)
         i = z3.Int(uid('q'))
         r = body.call(eng, st, [i], {}, node)[0][1]
         r = simp(eng.truth(r))
@@ -239,6 +241,21 @@ def install(eng):
         if is_strlike(v):
             return eng.builtins['str_to_float'].call(eng, st, args, kw, node)
         return one(st, to_real(v))
+
+    @reg('round')
+    def _round(eng, st, args, kw, node):
+        # round(x) of a real to an integer: nearest, ties to even (Python 3)
+        if len(args) != 1:
+            raise Unsupported('round with ndigits')
+        v = args[0]
+        if isinstance(v, (int, fractions.Fraction)):
+            return one(st, round(fractions.Fraction(v)))
+        if is_intlike(v):
+            return one(st, v)
+        x = to_real(v)
+        r = z3.ToInt(x + z3.Q(1, 2))
+        tie = (x + z3.Q(1, 2)) == z3.ToReal(r)
+        return one(st, z3.If(z3.And(tie, r % 2 != 0), r - 1, r))
 
     @reg('bool')
     def _bool(eng, st, args, kw, node):
